@@ -84,7 +84,12 @@ def checkBlock (env : Env) (cfg : Cfg) (h : Nat) (prev : Block) (prevConf conf :
     | [] => (acc, fees, some live)
     | t :: rest =>
       match applyTx live t b.ts with
-      | none => (acc ++ [s!"C02 input-not-live h={h} tx={t.id}"], fees, none)
+      | none =>
+        -- an input that is not live is worth nothing: what the transaction pays out comes from nowhere (C01), besides
+        -- consuming an output that does not exist or was already consumed (C02)
+        (acc ++ [s!"C02 input-not-live h={h} tx={t.id}"] ++
+          (if !t.hasReward && sumOut t + cfg.minFee > 0 then
+            [s!"C01 outputs-paid-from-an-input-that-is-not-live h={h} tx={t.id} out={sumOut t}"] else []), fees, none)
       | some (live', consumed) =>
         if t.hasReward then go live' rest fees acc
         else
